@@ -355,6 +355,34 @@ impl World {
                 match self.open() { Ok(()) => "ok".into(), Err(e) => format!("err {e}") }
             }
             Op::FillWindow { .. } => "skip".into(),
+            Op::SweepAbsent { lo, hi, streams } => {
+                let mut found = Vec::new();
+                for id in *lo..*hi {
+                    if *streams {
+                        if self.stream_by_name.contains_key(&stream_name(id)) { continue; }
+                        // one scan per bucket (the partition id only selects the bucket)
+                        for b in 0..self.h.buckets {
+                            let Ok(mut it) = db.read_stream(b, StreamId::new(stream_name(id)).unwrap(), 0, IterDirection::Forward).await else { found.push(format!("s{id}:err")); continue; };
+                            match it.next_batch(50).await {
+                                Ok(Some(bt)) if !bt.is_empty() => found.push(format!("s{id}:{}", bt.iter().map(|c| self.render_group(c)).collect::<Vec<_>>().join(" "))),
+                                Ok(_) => {}
+                                Err(e) => found.push(format!("s{id}:err {}", short(&e.to_string()))),
+                            }
+                        }
+                    } else {
+                        let pid = id as u16;
+                        if self.h.keys.contains(&pid) { continue; }
+                        let Ok(mut it) = db.read_partition(pid, 0, IterDirection::Forward).await else { found.push(format!("p{pid}:err")); continue; };
+                        match it.next_batch(50).await {
+                            Ok(Some(bt)) if !bt.is_empty() => found.push(format!("p{pid}:{}", bt.iter().map(|c| self.render_group(c)).collect::<Vec<_>>().join(" "))),
+                            Ok(_) => {}
+                            Err(e) => found.push(format!("p{pid}:err {}", short(&e.to_string()))),
+                        }
+                        if let Ok(Some(q)) = db.get_partition_sequence(pid).await { found.push(format!("p{pid}:seq{}", q.sequence)); }
+                    }
+                }
+                found.join(" ")
+            }
             Op::Crash { keep, extra } => {
                 drop(db);
                 let Some((bucket, offsets, has_commit)) = self.last_append.take() else {
